@@ -22,17 +22,26 @@ def patches_for(pid):
     out = []
     for p in sorted(glob.glob(os.path.join(VERIF, "variants", pid, "*.patch"))):
         out.append((os.path.relpath(p, VERIF), p, True))
-    for d in sorted(glob.glob(os.path.join(VERIF, "seeded", pid + "-*"))):
+    for d in sorted(glob.glob(os.path.join(VERIF, "seeded", "*-*"))):
         p = os.path.join(d, "patch.diff")
         if not os.path.exists(p):
             continue
-        caught = True
+        own = os.path.basename(d).startswith(pid + "-")
+        caught, checked_by = True, None
         try:
             with open(os.path.join(d, "meta.json")) as fh:
-                caught = not str(json.load(fh).get("caught_by", "")).upper().startswith("NOT CAUGHT")
+                meta = json.load(fh)
+            caught = not str(meta.get("caught_by", "")).upper().startswith("NOT CAUGHT")
+            checked_by = meta.get("checked_by")      # a seed may be caught by another property's check
         except OSError:
             pass
-        out.append((os.path.relpath(p, VERIF), p, caught))
+        if checked_by:
+            if pid in checked_by:
+                out.append((os.path.relpath(p, VERIF), p, caught))
+            elif own:
+                out.append((os.path.relpath(p, VERIF), p, False))
+        elif own:
+            out.append((os.path.relpath(p, VERIF), p, caught))
     return out
 
 
